@@ -159,12 +159,3 @@ Definition run_valid (a : sx) : sx :=
   match a with SBytes doc => SB (json_valid doc) | _ => sx_err "valid" end.
 Definition run_unquote (a : sx) : sx :=
   match a with SBytes doc => out_res SBytes (json_unmarshal_string doc) | _ => sx_err "unquote" end.
-
-(* private dispatcher (the shared one is Harness/Dispatch.v) *)
-Definition run (name : string) (a : sx) : sx :=
-  if String.eqb name "c20.print" then run_print a
-  else if String.eqb name "c20.parse" then run_parse a
-  else if String.eqb name "c20.method" then run_method a
-  else if String.eqb name "c20.valid" then run_valid a
-  else if String.eqb name "c20.unquote" then run_unquote a
-  else sx_err "unknown case kind".
